@@ -168,7 +168,7 @@ package netconf
 // bHead: ghost snapshot of the buffer at the top of the iteration. msgID: the id the loop extracts from a message.
 //@ ghost bHead []byte
 //@ ghost errsAtHeadN int
-//@ chanmode Driver.errs count
+//@ chanmode Driver.errs count,selectonly
 //@ spec msgID(b []byte) int := len(reSub(netconfPatternsInstance.messageID, b)) != 2 ? 0 : (atoiOK(reSub(netconfPatternsInstance.messageID, b)[1]) ? atoiVal(reSub(netconfPatternsInstance.messageID, b)[1]) : 0)
 //@ func (*Driver).storeSubscriptionMessage [C08]
 //@   requires d.subscriptions != nil
